@@ -14,7 +14,7 @@ CONSTANT Depth
 NameClasses == {"astkey", "pure", "shadow", "cap", "type", "exc", "private", "unknown"}
 AllowedNames == {"astkey", "pure", "shadow"}
 
-Leaf == [k : {"name"}, cls : NameClasses] \cup {[k |-> "const"], [k |-> "lambda"], [k |-> "comp"],
+Leaf == [k : {"name"}, cls : NameClasses] \cup {[k |-> "const"], [k |-> "lambda"], [k |-> "comp"], [k |-> "genexp"],
                                                  [k |-> "fmtfield", dunder |-> TRUE], [k |-> "fmtfield", dunder |-> FALSE]}
 RECURSIVE Exprs(_)
 Exprs(d) == IF d = 0 THEN Leaf
@@ -22,6 +22,9 @@ Exprs(d) == IF d = 0 THEN Leaf
                  S \cup {[k |-> "call", f |-> f, a |-> a] : f \in S, a \in {[k |-> "const"], [k |-> "name", cls |-> "astkey"], [k |-> "name", cls |-> "cap"]}}
                    \cup {[k |-> "attr", o |-> o, dunder |-> b] : o \in S, b \in BOOLEAN}
                    \cup {[k |-> "sub", o |-> o] : o \in S}
+                   \* attributes that are not dunders but hand out interpreter internals: the frame of a generator (gi_frame), its
+                   \* callers (f_back), their globals (f_globals), code objects ...
+                   \cup {[k |-> "fattr", o |-> o] : o \in S}
                    \cup {[k |-> "fstr", e |-> e] : e \in S}
                    \* the same sub-expression in the syntactic positions that are not expressions themselves: the value of a keyword
                    \* argument, the iterable and the condition of a comprehension, the default of a lambda parameter
@@ -37,6 +40,8 @@ Policy(e) ==
                        /\ Policy(e.f) /\ Policy(e.a)
     [] e.k = "attr" -> ~e.dunder /\ Policy(e.o)
     [] e.k = "sub" -> Policy(e.o)
+    [] e.k = "genexp" -> TRUE                              \* a generator over literals reads nothing else
+    [] e.k = "fattr" -> FALSE                              \* frames and code objects reach the real builtins and every caller's names
     [] e.k = "fstr" -> Policy(e.e)
     [] e.k = "pos" -> e.w \notin {"lamdefault", "kwlambda"} /\ Policy(e.e)    \* a comprehension over a throw-away target reads what its parts read; a
                                                           \* lambda is anonymous code (and calling it is not a call by name)
@@ -49,6 +54,7 @@ Effects(e) ==
     [] e.k = "attr" -> (IF e.dunder THEN {"dunder"} ELSE {}) \cup Effects(e.o)
     [] e.k = "fmtfield" -> IF e.dunder THEN {"dunder"} ELSE {}
     [] e.k = "sub" -> Effects(e.o)
+    [] e.k = "fattr" -> {"introspection"} \cup Effects(e.o)
     [] e.k = "fstr" -> Effects(e.e)
     [] e.k = "lambda" -> {"anonymous code"}
     [] e.k = "pos" -> Effects(e.e) \cup (IF e.w \in {"lamdefault", "kwlambda"} THEN {"anonymous code"} ELSE {})
@@ -65,6 +71,8 @@ Show(e) ==
     [] e.k = "call" -> Show(e.f) \o "(" \o Show(e.a) \o ")"
     [] e.k = "attr" -> Show(e.o) \o (IF e.dunder THEN ".__d__" ELSE ".p")
     [] e.k = "sub" -> Show(e.o) \o "[0]"
+    [] e.k = "genexp" -> "genx"
+    [] e.k = "fattr" -> Show(e.o) \o ".f_i"
     [] e.k = "fstr" -> "F{" \o Show(e.e) \o "}"
     [] e.k = "pos" -> CASE e.w = "kwarg" -> "kwarg<" \o Show(e.e) \o ">"           \* sorted('ab', key=<e>)
                         [] e.w = "compiter" -> "compiter<" \o Show(e.e) \o ">"     \* ['ab' for _ in [<e>]]
@@ -77,7 +85,7 @@ Show(e) ==
 RECURSIVE Lenient(_)
 Lenient(x) == CASE x.k = "pos" -> x.w = "kwlambda" \/ Lenient(x.e)
                 [] x.k = "call" -> Lenient(x.f) \/ Lenient(x.a)
-                [] x.k \in {"attr", "sub"} -> Lenient(x.o)
+                [] x.k \in {"attr", "sub", "fattr"} -> Lenient(x.o)
                 [] x.k = "fstr" -> Lenient(x.e)
                 [] OTHER -> FALSE
 
